@@ -1,6 +1,6 @@
 #!/bin/bash
 # tools/seedcheck.sh <id> <patch> [tier] [base-commit] [extra check args...]: apply the patch in a scratch worktree and run only ./check
-ID="$1"; PATCH="$(readlink -f "$2")"; TIER="${3:-quick}"; BASE="${4:-HEAD}"; shift 4 2>/dev/null
+ID="$1"; PATCH="$(readlink -f "$2")"; TIER="${3:-quick}"; BASE="${4:-HEAD}"; if [ $# -ge 4 ]; then shift 4; else shift $#; fi
 HERE="$(cd "$(dirname "$0")/.." && pwd)"
 W="$(mktemp -d /var/tmp/mouette-seed.XXXXXX)"
 git -C /repo worktree add -q --detach "$W/wt" "$BASE" || exit 2
